@@ -11,7 +11,7 @@ from typing import List, Optional
 from .model import AnalysisError, Program, Undecided, stmt_text
 
 VERIF = os.path.dirname(os.path.dirname(os.path.abspath(__file__)))
-EVIDENCE_DIR = os.path.join(VERIF, "evidence")
+EVIDENCE_DIR = os.environ.get("INDILINT_EVIDENCE_DIR") or os.path.join(VERIF, "evidence")
 REPLAY_DIR = os.path.join(EVIDENCE_DIR, "replay")
 KNOWN_FILE = os.path.join(VERIF, "known_findings.json")
 
@@ -164,6 +164,22 @@ def run_property(prop_id: str, mod, tier: str, seed: int, explain: Optional[str]
                 ctx.undecided(rule_id, "(rule)", str(u))
             if len(ctx.results) == before:
                 raise AnalysisError(f"{rule_id} produced no obligation at all")
+        # imported obligations: necessary conditions of this property that are decided by a rule of another property
+        import importlib
+        for modname, rid in getattr(mod, "IMPORTS", []):
+            m2 = importlib.import_module(f"indilint.rules.{modname.lower()}")
+            hit = [r for r in m2.RULES if r[0] == rid]
+            if not hit:
+                raise AnalysisError(f"imported rule {rid} not found in {modname}")
+            ctx.current_rule = rid
+            ctx.imported = getattr(ctx, "imported", []) + [rid]
+            before = len(ctx.results)
+            try:
+                hit[0][1](ctx)
+            except Undecided as u:
+                ctx.undecided(rid, "(imported rule)", str(u))
+            if len(ctx.results) == before:
+                raise AnalysisError(f"imported {rid} produced no obligation at all")
     except AnalysisError as e:
         print("\n".join(lines))
         print(f"ANALYSIS-ERROR property={prop_id}: {e}")
@@ -248,6 +264,7 @@ def _write_evidence(prop_id, mod, tier, seed, ctx, program, wall, nviol=0, error
         "checker_cmd": f"./check {prop_id} --tier {tier}",
         "trusted_base": getattr(mod, "TRUSTED", []),
         "rules": [{"id": rid, "what": desc} for rid, _, desc in getattr(mod, "RULES", [])],
+        "imported_rules": [f"{m}:{r}" for m, r in getattr(mod, "IMPORTS", [])],
         "not_decided": getattr(mod, "NOT_DECIDED", ""),
         "units": {
             "repo": program.root if program else None,
